@@ -10,6 +10,8 @@ a `BlochWaves` object (zone axis, small tilt, arbitrary orientation; `orientatio
   * lazy-eager           lazy result (type, shape, miller indices, thickness axis, values) == eager result;
   * expm-equals-eig      |S(z) e_0|^2 with S from `BlochWaves.calculate_scattering_matrix` / the module function
                          (scipy expm path) == intensities of the eigen-decomposition path;
+  * joint-compute        three lazy diffraction results (this crystal, other thicknesses, the crystal with its two elements
+                         exchanged) and two lazy structure matrices evaluated in ONE dask.compute == separate eager runs;
   * ensemble-member      (rotation ensembles) every member of a lazy/eager `BlochwaveEnsemble` == the single
                          `BlochWaves` run with that rotation, scattered into the ensemble's beam list;
   * auxiliary            structure matrix Hermitian; structure matrix == independent float64 assembly
@@ -49,8 +51,8 @@ RULE = ("crystal drawn from sc/bcc/fcc/diamond/rocksalt/zincblende/CsCl/hcp (pri
         "outside the direct beam; distinct = distinct case signature")
 CLAUSES = ["intensity-sum", "intensity-sum:no-holz", "zero-thickness", "lazy-eager:values", "lazy-eager:meta",
            "expm-equals-eig", "expm-equals-eig:no-holz", "structure-matrix-hermitian", "structure-matrix-model",
-           "s-matrix-flux-unitary", "ensemble-member"]
-QUICK = dict(n=34, time=45)
+           "s-matrix-flux-unitary", "ensemble-member", "joint-compute"]
+QUICK = dict(n=28, time=45)
 THOROUGH = dict(n=7690, time=480, shards=16)
 ASSUMPTIONS = ["beams with g_z != 0 are judged to first order in g_z/k0 (tolerance 8 W for the sum, 5 B per beam for the path comparison); cases "
                "without such beams are judged at float64 round-off",
@@ -387,6 +389,27 @@ def _check(ctx, case):
         if L.shape == I.shape:
             ctx.close(L, I, "lazy-eager:values", rtol=0, atol=(2e-3 if f32 else 1e-10))
     attempt(ctx, "lazy", lazy_stage)
+
+    # ---------------- several lazy results in one dask computation (no key collisions between objects)
+    def joint_stage():
+        import dask
+        swap = {case["elements"][0]: case["elements"][1], case["elements"][1]: case["elements"][0]}
+        other = atoms.copy()
+        other.symbols = [swap[x] for x in atoms.get_chemical_symbols()]
+        bw_other = make_bloch(case, other)
+        th2 = th * 0.5 + 7.0 if isinstance(th, float) else [t * 0.5 + 7.0 for t in th_list]
+        jobs = [(bw, th), (bw, th2), (bw_other, th)]
+        lazies = [b.calculate_diffraction_patterns(t, lazy=True) for b, t in jobs]
+        mats = [b.calculate_structure_matrix(lazy=True) for b in (bw, bw_other)]
+        out = dask.compute(*([x.array for x in lazies] + mats), scheduler="synchronous")
+        for i, ((b, t), got) in enumerate(zip(jobs, out[:3])):
+            sep = np.asarray(b.calculate_diffraction_patterns(t, lazy=False).array)
+            ctx.close(np.asarray(got), sep, "joint-compute", rtol=0, atol=(2e-3 if f32 else 1e-10), member=i)
+        for i, (b, got) in enumerate(zip((bw, bw_other), out[3:])):
+            sep = np.asarray(b.calculate_structure_matrix(lazy=False))
+            ctx.close(np.asarray(got), sep, "joint-compute", rtol=0, atol=(1e-5 if f32 else 1e-12) * float(np.abs(sep).max()),
+                      member=i, what="structure matrix")
+    attempt(ctx, "joint-compute", joint_stage)
 
     # ---------------- structure matrix: Hermitian + independent assembly
     def matrix_stage():
